@@ -140,11 +140,27 @@ theorem ob_ensureSigchld (st : St) : ObsEq st (ensureSigchld st) := by
   · exact (ob_watchSignal _ _ _ _).trans (ObsEq.of_eq rfl)
 
 
+theorem ob_setNotify (st : St) (a : Nat) (n : Option Nat) : ObsEq st (setNotify st a n) := by
+  unfold setNotify
+  exact ob_setW st a { st.getW a with notify := n }
+
+theorem ob_linkNotified (r : St × Nat) (a : Nat) (flags : Nat) : ObsEq r.1 (linkNotified r a flags) := by
+  unfold linkNotified
+  exact ((ob_setNotify r.1 a (some r.2)).trans (ob_insertWatch _ _ _ _)).trans (ob_with_procs _ _)
+
+theorem ob_clearNotify (st : St) (a : Nat) : ObsEq st (clearNotify st a) := by
+  unfold clearNotify
+  split
+  · exact ob_setNotify st a none
+  · exact ObsEq.refl _
+
 theorem ob_linkProcess (st : St) (a : Nat) (pid : Int) (flags : Nat) : ObsEq st (linkProcess st a pid flags) := by
   unfold linkProcess
   simp only []
   split
-  · exact ((ob_waitpid _ _).trans (ob_setWstatus _ _ _)).trans (ob_watchLater _ _ _ _)
+  · split
+    · exact (((ob_waitpid _ _).trans (ob_setWstatus _ _ _)).trans (ob_watchLater _ _ _ _)).trans (ob_linkNotified _ _ _)
+    · exact ((ob_waitpid _ _).trans (ob_setWstatus _ _ _)).trans (ob_watchLater _ _ _ _)
   · exact ((ob_waitpid _ _).trans (ob_insertWatch _ _ _ _)).trans (ob_with_procs _ _)
 
 
@@ -199,8 +215,8 @@ theorem ob_laterPre (st : St) (a : Nat) : ObsEq st (laterPre st a) := by
   · exact (ob_setW _ _ _)
   · exact ObsEq.refl _
 
-theorem ob_watchCancel (st : St) (a : Nat) : ObsEq st (watchCancel st a) := by
-  unfold watchCancel
+theorem ob_watchCancel0 (st : St) (a : Nat) : ObsEq st (watchCancel0 st a) := by
+  unfold watchCancel0
   split
   · exact ObsEq.refl st
   · split
@@ -215,6 +231,14 @@ theorem ob_watchCancel (st : St) (a : Nat) : ObsEq st (watchCancel st a) := by
             · exact ObsEq.refl st
           · exact ob_cancelFound st a _ _
 
+
+theorem ob_watchCancel (st : St) (a : Nat) : ObsEq st (watchCancel st a) := by
+  unfold watchCancel
+  split
+  · split
+    · exact (ob_watchCancel0 st a).trans (ob_watchCancel0 _ _)
+    · exact ob_watchCancel0 st a
+  · exact ob_watchCancel0 st a
 
 theorem ob_with_slots (st : St) (l : List SlotRec) : ObsEq st { st with slots := l } := ObsEq.of_eq rfl
 
@@ -414,7 +438,7 @@ theorem ob_processNotify (st : St) (a : Nat) : ObsEq st (processNotify st a) := 
   unfold processNotify
   split
   · exact (ob_fail _ _)
-  · exact ob_invokeWatch _ _ _ _
+  · exact (ob_clearNotify _ _).trans (ob_invokeWatch _ _ _ _)
 
 
 theorem ob_laterCb (st : St) (a : Nat) : ObsEq st (laterCb st a) := by
